@@ -88,8 +88,6 @@ Definition lossless_request (t : Z) : bool :=
     the object is named explicitly, that does not stay a record variable (an unlimited dimension cannot be
     chunked; it stays unlimited exactly when the resulting compression is "none").
     "NONE" (unchunk) applies to every non-empty object. *)
-Definition small (es : list entry) (th : Z) (o : objinfo) : bool := o_bytes o <? th.
-
 Definition comp_applicable (th : Z) (k : kind) (o : objinfo) (t : Z) : bool :=
   match k with
   | KSds | KGr => negb (o_empty o) && negb (o_bytes o <? th) && lossless_request t
@@ -121,7 +119,7 @@ Definition expect_chunk (es : list entry) (th : Z) (k : kind) (p : str) (o : obj
            | Some (r, lens) =>
                if named es p && (o_bytes o <? th) then KeepUnknown
                else if r =? -2 then MustNotChunk
-               else if negb (r =? o_rank o) then KeepUnknown
+               else if negb ((r =? o_rank o) && (0 <? r)) then KeepUnknown
                else match stays_record es th k p o with
                     | Some false => MustChunk (firstn (Z.to_nat r) lens)
                     | _ => KeepUnknown
